@@ -1,6 +1,19 @@
 """Picklable, importable-by-spawn components used inside coba worker processes (must stay module-level)."""
 import os, time, random
 
+# every process that imports this module (the case process and the coba workers that unpickle these components) can be asked for the
+# stacks of all its threads: SIGUSR1 -> $VERIF_STACKDIR/stack.<pid> (the watchdog of vf.expkit.run_subprocess asks before it kills)
+def _register_stack_dump():
+    d = os.environ.get("VERIF_STACKDIR")
+    if not d: return
+    try:
+        import faulthandler, signal
+        f = open(os.path.join(d, f"stack.{os.getpid()}"), "w")
+        faulthandler.register(signal.SIGUSR1, file=f, all_threads=True, chain=False)
+        globals()["_STACK_FILE"] = f          # keep the file object alive
+    except Exception: pass
+_register_stack_dump()
+
 def _append(path, line):
     """atomic O_APPEND event record (one write per event) so histories survive worker processes"""
     fd = os.open(path, os.O_WRONLY | os.O_APPEND | os.O_CREAT, 0o644)
